@@ -158,7 +158,9 @@ CHECKS['C15'] = dict(
          'validates the state-changing bit) and by differential CSRF sequences on the real CsrfProtection. The rule decided inside '
          'a method body, EditUser.post, has its own model (Model/UserModel.v): C15_edit_other_needs_admin, '
          'C15_self_edit_no_escalation, C15_password_needs_confirmation, tied by the row the database holds after each of a '
-         'series of POST /api/users/<pk> requests (administrator / ordinary caller x own / other / unknown account).',
+         'series of POST /api/users/<pk> requests (administrator / ordinary caller x own / other / unknown account); '
+         'C15_users_unique (Model/UsersModel.v: under any sequence of additions and edits the primary keys, user names and email '
+         'addresses of the user table stay unique), tied by whole-table comparison after every request of colliding add / edit histories.',
     note=TB + 'PARTIAL: other authorisation decided inside method bodies (none known besides EditUser.post) would be outside the table '
          'theorem and decided by the HTTP sweep only; flask-login is replaced by a shim (session user id), flask-jwt-extended is the real library; '
          'HMAC-SHA1 injectivity is assumed; the role required per handler class is a hand table from docs/users.md.',
